@@ -114,3 +114,14 @@ claim("C14", "exploration",
       "overlap, in range) and routing-table target lengths are checked against the simulated state.",
       "SimMachine encodes the info reply / p2p packing / vcpu block / iobuf chain from the controller's docstrings.",
       "DESIGN.md section 4, C14")
+claim("C18", "model_checking",
+      "Breadth-first search over context-block histories (enter one of 9 frames, enter application(1|2), leave normally, leave by "
+      "exception, update current context; depth <=3, thorough 4) on a real MachineController; in every state the merged arguments must "
+      "equal a stack-of-dicts model, application blocks must send exactly one stop for their id on either exit, and probe methods are "
+      "called. Every wrapped method (found by introspection) x call forms (none, all keyword, all positional, each argument alone, falsy "
+      "explicit values) is run in every merged context (256) next to a twin controller that gets the model-resolved values explicitly: "
+      "datagram traces must be identical; a missing required argument must raise TypeError before anything is sent. Wire fields "
+      "(destination chip/core, app-id fields), connection selection against the SpiNN-5 tile model for three root chips, and the board "
+      "controller (cabinet/frame/board contexts, most specific connection) are checked directly.",
+      "Twin simulated machines; table of non-contextual arguments in the harness; nested internal calls resolve from the same context.",
+      "DESIGN.md section 4, C18")
